@@ -106,6 +106,30 @@ func init() {
 					}
 				}
 			}
+			// part 1c: the parameter that needs conversion carries a subtype
+			for _, sub := range subsetsUpTo(3, 3) {
+				if len(sub) < 2 {
+					continue
+				}
+				has := false
+				var ins []Label
+				for _, i := range sub {
+					ins = append(ins, Label{names[i], 1, ""})
+					has = has || names[i] == n
+				}
+				if !has {
+					continue
+				}
+				for _, outL := range []Label{{"", 0, ""}, {n, 0, "x"}} {
+					for _, inF := range []Form{FormPositional, FormStruct} {
+						conv := FuncSpec{ID: "c0", In: []Label{{"", 1, ""}}, Out: []Label{outL}, InForm: inF, OutForm: FormStruct}
+						for _, perm := range allPerms(len(ins) + 1) {
+							emit(Scenario{Affinity: "input", Target: FuncSpec{ID: "tgt", In: []Label{{n, 0, "x"}}, Out: []Label{{"", 2, ""}}, OutForm: FormPositional},
+								Inputs: mkInputs(ins), Convs: []FuncSpec{conv}, ArgOrder: append([]int{}, perm...)})
+						}
+					}
+				}
+			}
 			// part 1b: the converter is needed more than once in one call — two named
 			// parameters of the target, or one of the target and one of a downstream
 			// converter, each with its own same-named input among the competitors
